@@ -4,7 +4,7 @@
    statement lists to the functions the property theorems are about.  FactsCheck.v then shows
    that what was extracted normalises to the expected lists. *)
 From Common Require Import Prelude.
-From C15 Require Import Model Proofs ProofsCodec ProofsInto.
+From C15 Require Import Model Proofs ProofsCodec ProofsFixed ProofsInto ProofsLife.
 Local Open Scope Z_scope.
 
 (* size_t expressions over the cursor member, the size/count parameter and buffer->size() *)
@@ -351,3 +351,28 @@ Proof.
   unfold exp_str_read. cbn [exec_strread get_into].
   destruct (rd_read r true 8) as [| |szb r1]; cbn [rbind]; reflexivity.
 Qed.
+
+(* -------------------------------------------- getWrittenView / FixedArrayView ownership *)
+(* how FixedArrayView's constructor initialises its member [data] *)
+Inductive fav_init :=
+| FShareCopy        (* data(std::make_shared<FixedArray<T>>(DEREF _data)) : an own FixedArray sharing the allocation *)
+| FShareSame        (* data(_data)                                   : the same shared_ptr                       *)
+| FNone             (* not initialised: the view is a bare pointer                                              *)
+| FUnknown.
+(* where the pointer handed to setPtr comes from *)
+Inductive fav_ptr := PMember | PParam | PUnknown.
+
+(* the view holds a share of the allocation it points into: the [own] flag of Model.l_step *)
+Definition fav_owns (i : fav_init) (p : fav_ptr) (shared_storage : bool) : bool :=
+  match i, p with
+  | (FShareCopy | FShareSame), (PMember | PParam) => shared_storage
+  | _, _ => false
+  end.
+
+Lemma owning_view_is_model i p s st op : fav_owns i p s = true -> l_step (fav_owns i p s) st op = l_step true st op.
+Proof. now intros ->. Qed.
+
+(* getWrittenView() = make_shared<View>(buffer, off, size) *)
+Lemma exp_wview_ok w :
+  fetch (f_bytes w) (seval (fenv w None 0) (XConst 0)) (seval (fenv w None 0) XCursor) = fbw_view w.
+Proof. reflexivity. Qed.
